@@ -181,4 +181,521 @@ theorem build_nil (adj : List Link) :
   intro a b
   simpa [AMap.get] using h3 a b
 
+/-! ### the culling loop (:66-86) -/
+
+theorem AMap.erase_absent (m : AMap) (k : Nat × Nat) (h : m.get k = none) : m.erase k = m := by
+  unfold AMap.erase
+  rw [List.filter_eq_self]
+  intro x hx
+  have : x.1 ∈ akeys m := List.mem_map.mpr ⟨x, hx, rfl⟩
+  have hs := (AMap.mem_keys_iff m x.1).mp this
+  have : x.1 ≠ k := fun c => by rw [c, h] at hs; simp at hs
+  simpa using this
+
+/-- the value the loop leaves in `adj[a][b]` -/
+def fin (adj : List Link) (order : List Nat) (a b : Nat) : Option Entry := (portToward adj order a b).map Entry.port
+
+def Settled (adj : List Link) (Done : Nat × Nat → Prop) (a b : Nat) : Prop :=
+  Done (a, b) ∨ (Done (b, a) ∧ linksFrom adj b a ≠ [])
+
+/-- loop invariant: `Done` = the (s1, s2) pairs the double loop has been through -/
+structure CInv (adj : List Link) (order : List Nat) (Done : Nat × Nat → Prop) (m : AMap) : Prop where
+  g1 : ∀ a b, linksFrom adj a b = [] → m.get (a, b) = none
+  g2 : ∀ a b, linksFrom adj a b ≠ [] → Settled adj Done a b → m.get (a, b) = fin adj order a b
+  g3 : ∀ a b, linksFrom adj a b ≠ [] → ¬ Settled adj Done a b → m.get (a, b) = some (.links (linksFrom adj a b))
+  gk : akeys m = (keysOf adj).filter fun k => (m.get k).isSome
+
+theorem goodLink_flip_links {adj : List Link} {a b : Nat} {l : Link} (h : goodLink adj a b = some l) :
+    linksFrom adj b a ≠ [] := by
+  obtain ⟨_, h1, h2, h3⟩ := goodLink_some h
+  have : l.flip ∈ linksFrom adj b a := by
+    unfold linksFrom; rw [List.mem_filter]; exact ⟨h3, by simp [Link.flip, h1, h2]⟩
+  exact List.ne_nil_of_mem this
+
+theorem goodLink_none_symm {adj : List Link} {a b : Nat} (h : goodLink adj a b = none) : goodLink adj b a = none := by
+  cases hb : goodLink adj b a with
+  | none => rfl
+  | some l =>
+    have : (goodLink adj a b).isSome = true :=
+      (goodLink_isSome adj a b).mpr ((goodLink_isSome adj b a).mp (by rw [hb]; rfl)).symm
+    rw [h] at this; cases this
+
+theorem fin_none {adj : List Link} (order : List Nat) {a b : Nat} (h : goodLink adj a b = none) :
+    fin adj order a b = none ∧ fin adj order b a = none := by
+  have h' := goodLink_none_symm h
+  unfold fin portToward
+  constructor <;> split <;> simp [h, h']
+
+theorem fin_some {adj : List Link} {order : List Nat} {a b : Nat} {l : Link} (h : goodLink adj a b = some l)
+    (hb : before order a b = true) :
+    fin adj order a b = some (.port l.port1) ∧ fin adj order b a = some (.port l.port2) := by
+  have hb' := before_asymm order a b hb
+  unfold fin portToward
+  simp [hb, hb', h]
+
+theorem linksFrom_self (adj : List Link) (hns : ∀ l ∈ adj, l.dpid1 ≠ l.dpid2) (a : Nat) : linksFrom adj a a = [] := by
+  unfold linksFrom
+  rw [List.filter_eq_nil_iff]
+  intro l hl
+  have := hns l hl
+  simp only [Bool.and_eq_true, decide_eq_true_eq, not_and]
+  exact fun h1 h2 => this (h1.trans h2.symm)
+
+theorem settled_step (adj : List Link) (Done : Nat × Nat → Prop) (s1 s2 a b : Nat) :
+    Settled adj (fun p => Done p ∨ p = (s1, s2)) a b ↔
+      Settled adj Done a b ∨ (a, b) = (s1, s2) ∨ ((b, a) = (s1, s2) ∧ linksFrom adj b a ≠ []) := by
+  unfold Settled
+  constructor
+  · rintro ((h | h) | ⟨h | h, hl⟩)
+    · exact .inl (.inl h)
+    · exact .inr (.inl h)
+    · exact .inl (.inr ⟨h, hl⟩)
+    · exact .inr (.inr ⟨h, hl⟩)
+  · rintro ((h | ⟨h, hl⟩) | h | ⟨h, hl⟩)
+    · exact .inl (.inl h)
+    · exact .inr ⟨.inl h, hl⟩
+    · exact .inl (.inr h)
+    · exact .inr ⟨.inr h, hl⟩
+
+/-- going through a pair that is already settled (or has no links) changes nothing, also not in the invariant -/
+theorem CInv_same {adj : List Link} {order : List Nat} {Done : Nat × Nat → Prop} {m : AMap} (hI : CInv adj order Done m)
+    (s1 s2 : Nat) (hU : linksFrom adj s1 s2 = [] ∨ Settled adj Done s1 s2) :
+    CInv adj order (fun p => Done p ∨ p = (s1, s2)) m := by
+  have key : ∀ a b, linksFrom adj a b ≠ [] → (Settled adj (fun p => Done p ∨ p = (s1, s2)) a b ↔ Settled adj Done a b) := by
+    intro a b hl
+    rw [settled_step]
+    constructor
+    · rintro (h | h | ⟨h, hl2⟩)
+      · exact h
+      · cases h
+        rcases hU with c | c
+        · exact absurd c hl
+        · exact c
+      · cases h
+        rcases hU with c | c
+        · exact absurd c hl2
+        · rcases c with c | ⟨c, _⟩
+          · exact .inr ⟨c, hl2⟩
+          · exact .inl c
+    · exact .inl
+  exact { g1 := hI.g1
+          g2 := fun a b hl hs => hI.g2 a b hl ((key a b hl).mp hs)
+          g3 := fun a b hl hs => hI.g3 a b hl (fun c => hs ((key a b hl).mpr c))
+          gk := hI.gk }
+
+theorem pair_cases (s1 s2 a b : Nat) : (a, b) = (s1, s2) ∨ (a, b) = (s2, s1) ∨ ((a, b) ≠ (s1, s2) ∧ (a, b) ≠ (s2, s1)) := by
+  by_cases h1 : (a, b) = (s1, s2)
+  · exact .inl h1
+  · by_cases h2 : (a, b) = (s2, s1)
+    · exact .inr (.inl h2)
+    · exact .inr (.inr ⟨h1, h2⟩)
+
+theorem cullBody_inv (adj : List Link) (order : List Nat) (hns : ∀ l ∈ adj, l.dpid1 ≠ l.dpid2)
+    (Done : Nat × Nat → Prop) (m : AMap) (hI : CInv adj order Done m) (s1 s2 : Nat)
+    (hC : s1 ≠ s2 → ¬ Done (s2, s1) → before order s1 s2 = true) :
+    ∃ m', cullBody adj s1 s2 m = .ok m' ∧ CInv adj order (fun p => Done p ∨ p = (s1, s2)) m' := by
+  by_cases hL : linksFrom adj s1 s2 = []
+  · refine ⟨m, ?_, CInv_same hI s1 s2 (.inl hL)⟩
+    unfold cullBody; rw [hI.g1 s1 s2 hL]
+  · by_cases hS : Settled adj Done s1 s2
+    · refine ⟨m, ?_, CInv_same hI s1 s2 (.inr hS)⟩
+      unfold cullBody; rw [hI.g2 s1 s2 hL hS]
+      unfold fin
+      cases portToward adj order s1 s2 <;> rfl
+    · have hne : s1 ≠ s2 := fun c => hL (by rw [c]; exact linksFrom_self adj hns s2)
+      have hg := hI.g3 s1 s2 hL hS
+      have hk12 : ((s1, s2) : Nat × Nat) ≠ (s2, s1) := fun c => hne (Prod.mk.inj c).1
+      have other : ∀ a b, (a, b) ≠ (s1, s2) → (a, b) ≠ (s2, s1) → linksFrom adj a b ≠ [] →
+          (Settled adj (fun p => Done p ∨ p = (s1, s2)) a b ↔ Settled adj Done a b) := by
+        intro a b h1 h2 _
+        rw [settled_step]
+        constructor
+        · rintro (h | h | ⟨h, _⟩)
+          · exact h
+          · exact absurd h h1
+          · exact absurd (by cases h; rfl) h2
+        · exact .inl
+      have set1 : Settled adj (fun p => Done p ∨ p = (s1, s2)) s1 s2 := .inl (.inr rfl)
+      have set2 : Settled adj (fun p => Done p ∨ p = (s1, s2)) s2 s1 := .inr ⟨.inr rfl, hL⟩
+      cases hgl : goodLink adj s1 s2 with
+      | some l =>
+        have hL2 : linksFrom adj s2 s1 ≠ [] := goodLink_flip_links hgl
+        have hnd : ¬ Done (s2, s1) := fun c => hS (.inr ⟨c, hL2⟩)
+        have hbef := hC hne hnd
+        obtain ⟨f1, f2⟩ := fin_some hgl hbef
+        have hg2 : m.get (s2, s1) = some (.links (linksFrom adj s2 s1)) := by
+          apply hI.g3 s2 s1 hL2
+          rintro (c | ⟨c, _⟩)
+          · exact hnd c
+          · exact hS (.inl c)
+        refine ⟨(m.set (s1, s2) (.port l.port1)).set (s2, s1) (.port l.port2), ?_, ?_⟩
+        · unfold cullBody
+          rw [hg]
+          simp only [hne, if_false]
+          have : (linksFrom adj s1 s2).find? (fun l => decide (l.flip ∈ adj)) = some l := hgl
+          rw [this]
+        · have hget : ∀ k, ((m.set (s1, s2) (.port l.port1)).set (s2, s1) (.port l.port2)).get k =
+              if (s2, s1) = k then some (.port l.port2) else if (s1, s2) = k then some (.port l.port1) else m.get k := by
+            intro k; rw [AMap.get_set, AMap.get_set]
+          refine { g1 := ?_, g2 := ?_, g3 := ?_, gk := ?_ }
+          · intro a b hl
+            have n1 : ((s2, s1) : Nat × Nat) ≠ (a, b) := fun c => by cases c; exact hL2 hl
+            have n2 : ((s1, s2) : Nat × Nat) ≠ (a, b) := fun c => by cases c; exact hL hl
+            rw [hget, if_neg n1, if_neg n2]; exact hI.g1 a b hl
+          · intro a b hl hs
+            rcases pair_cases s1 s2 a b with c | c | ⟨c1, c2⟩
+            · cases c; rw [hget, if_neg hk12.symm, if_pos rfl, f1]
+            · cases c; rw [hget, if_pos rfl, f2]
+            · rw [hget, if_neg (fun c => c2 c.symm), if_neg (fun c => c1 c.symm)]
+              exact hI.g2 a b hl ((other a b c1 c2 hl).mp hs)
+          · intro a b hl hs
+            rcases pair_cases s1 s2 a b with c | c | ⟨c1, c2⟩
+            · cases c; exact absurd set1 hs
+            · cases c; exact absurd set2 hs
+            · rw [hget, if_neg (fun c => c2 c.symm), if_neg (fun c => c1 c.symm)]
+              exact hI.g3 a b hl (fun c => hs ((other a b c1 c2 hl).mpr c))
+          · have p1 : (s1, s2) ∈ akeys m := (AMap.mem_keys_iff m _).mpr (by rw [hg]; rfl)
+            have p2 : (s2, s1) ∈ akeys (m.set (s1, s2) (.port l.port1)) := by
+              rw [AMap.keys_set, if_pos p1]; exact (AMap.mem_keys_iff m _).mpr (by rw [hg2]; rfl)
+            rw [AMap.keys_set, if_pos p2, AMap.keys_set, if_pos p1, hI.gk]
+            apply List.filter_congr
+            intro k _
+            rw [hget]
+            by_cases c2 : (s2, s1) = k
+            · subst c2; rw [if_pos rfl, hg2]; rfl
+            · by_cases c1 : (s1, s2) = k
+              · subst c1; rw [if_neg c2, if_pos rfl, hg]; rfl
+              · rw [if_neg c2, if_neg c1]
+      | none =>
+        obtain ⟨f1, f2⟩ := fin_none order hgl
+        have hm' : (if ((m.erase (s1, s2)).get (s2, s1)).isSome then (m.erase (s1, s2)).erase (s2, s1) else m.erase (s1, s2)) =
+            (m.erase (s1, s2)).erase (s2, s1) := by
+          split
+          · rfl
+          · rename_i h
+            have : (m.erase (s1, s2)).get (s2, s1) = none := by
+              cases hh : (m.erase (s1, s2)).get (s2, s1) with
+              | none => rfl
+              | some e => rw [hh] at h; simp at h
+            exact (AMap.erase_absent _ _ this).symm
+        refine ⟨(m.erase (s1, s2)).erase (s2, s1), ?_, ?_⟩
+        · unfold cullBody
+          rw [hg]
+          simp only [hne, if_false]
+          have : (linksFrom adj s1 s2).find? (fun l => decide (l.flip ∈ adj)) = none := hgl
+          rw [this]
+          simp only []
+          rw [hm']
+        · have hget : ∀ k, ((m.erase (s1, s2)).erase (s2, s1)).get k =
+              if k = (s2, s1) then none else if k = (s1, s2) then none else m.get k := by
+            intro k; rw [AMap.get_erase, AMap.get_erase]
+          refine { g1 := ?_, g2 := ?_, g3 := ?_, gk := ?_ }
+          · intro a b hl
+            rw [hget]
+            split
+            · rfl
+            · split
+              · rfl
+              · exact hI.g1 a b hl
+          · intro a b hl hs
+            rcases pair_cases s1 s2 a b with c | c | ⟨c1, c2⟩
+            · cases c; rw [hget, if_neg hk12, if_pos rfl, f1]
+            · cases c; rw [hget, if_pos rfl, f2]
+            · rw [hget, if_neg c2, if_neg c1]
+              exact hI.g2 a b hl ((other a b c1 c2 hl).mp hs)
+          · intro a b hl hs
+            rcases pair_cases s1 s2 a b with c | c | ⟨c1, c2⟩
+            · cases c; exact absurd set1 hs
+            · cases c; exact absurd set2 hs
+            · rw [hget, if_neg c2, if_neg c1]
+              exact hI.g3 a b hl (fun c => hs ((other a b c1 c2 hl).mpr c))
+          · rw [AMap.keys_erase, AMap.keys_erase, hI.gk, List.filter_filter, List.filter_filter]
+            apply List.filter_congr
+            intro k _
+            rw [hget]
+            by_cases c2 : k = (s2, s1)
+            · simp [c2]
+            · by_cases c1 : k = (s1, s2)
+              · simp [c1, c2]
+              · simp [c1, c2]
+
+theorem CInv_congr {adj : List Link} {order : List Nat} {Done Done' : Nat × Nat → Prop} {m : AMap}
+    (h : ∀ p, Done p ↔ Done' p) (hI : CInv adj order Done m) : CInv adj order Done' m := by
+  have key : ∀ a b, Settled adj Done' a b ↔ Settled adj Done a b := by
+    intro a b; unfold Settled; rw [h (a, b), h (b, a)]
+  exact { g1 := hI.g1
+          g2 := fun a b hl hs => hI.g2 a b hl ((key a b).mp hs)
+          g3 := fun a b hl hs => hI.g3 a b hl (fun c => hs ((key a b).mpr c))
+          gk := hI.gk }
+
+theorem cullInner_inv (adj : List Link) (order : List Nat) (hns : ∀ l ∈ adj, l.dpid1 ≠ l.dpid2)
+    (D0 : Nat × Nat → Prop) (s1 : Nat) (hC : ∀ s2, s1 ≠ s2 → ¬ D0 (s2, s1) → before order s1 s2 = true) :
+    ∀ (rest ipre : List Nat) (m : AMap), CInv adj order (fun p => D0 p ∨ (p.1 = s1 ∧ p.2 ∈ ipre)) m →
+      ∃ m', cullInner adj s1 rest m = .ok m' ∧ CInv adj order (fun p => D0 p ∨ (p.1 = s1 ∧ p.2 ∈ ipre ++ rest)) m'
+  | [], ipre, m, hI => ⟨m, rfl, by simpa using hI⟩
+  | s2 :: r, ipre, m, hI => by
+    obtain ⟨m1, e1, hI1⟩ := cullBody_inv adj order hns _ m hI s1 s2
+      (fun hne hnd => hC s2 hne (fun c => hnd (.inl c)))
+    have hI1' : CInv adj order (fun p => D0 p ∨ (p.1 = s1 ∧ p.2 ∈ ipre ++ [s2])) m1 := by
+      refine CInv_congr ?_ hI1
+      intro p
+      obtain ⟨x, y⟩ := p
+      simp only [List.mem_append, List.mem_singleton, Prod.mk.injEq]
+      constructor
+      · rintro ((h | ⟨h1, h2⟩) | ⟨h1, h2⟩)
+        · exact .inl h
+        · exact .inr ⟨h1, .inl h2⟩
+        · exact .inr ⟨h1, .inr h2⟩
+      · rintro (h | ⟨h1, h2 | h2⟩)
+        · exact .inl (.inl h)
+        · exact .inl (.inr ⟨h1, h2⟩)
+        · exact .inr ⟨h1, h2⟩
+    obtain ⟨m2, e2, hI2⟩ := cullInner_inv adj order hns D0 s1 hC r (ipre ++ [s2]) m1 hI1'
+    refine ⟨m2, ?_, by simpa [List.append_assoc] using hI2⟩
+    simp only [cullInner, e1, e2]
+
+theorem cullOuter_inv (adj : List Link) (order : List Nat) (hns : ∀ l ∈ adj, l.dpid1 ≠ l.dpid2) :
+    ∀ (orest opre : List Nat) (m : AMap), order = opre ++ orest →
+      CInv adj order (fun p => p.1 ∈ opre ∧ p.2 ∈ order) m →
+      ∃ m', cullOuter adj order orest m = .ok m' ∧ CInv adj order (fun p => p.1 ∈ order ∧ p.2 ∈ order) m'
+  | [], opre, m, ho, hI => by
+    have : opre = order := by simpa using ho.symm
+    subst this
+    exact ⟨m, rfl, hI⟩
+  | s1 :: r, opre, m, ho, hI => by
+    have hs1 : s1 ∈ order := by rw [ho]; simp
+    have hC : ∀ s2, s1 ≠ s2 → ¬ (fun p : Nat × Nat => p.1 ∈ opre ∧ p.2 ∈ order) (s2, s1) → before order s1 s2 = true := by
+      intro s2 hne hnd
+      have : s2 ∉ opre := fun c => hnd ⟨c, hs1⟩
+      rw [ho]; exact before_of_split opre s1 r s2 this hne
+    obtain ⟨m1, e1, hI1⟩ := cullInner_inv adj order hns (fun p => p.1 ∈ opre ∧ p.2 ∈ order) s1 hC order [] m
+      (CInv_congr (by intro p; simp) hI)
+    have hI1' : CInv adj order (fun p => p.1 ∈ opre ++ [s1] ∧ p.2 ∈ order) m1 := by
+      refine CInv_congr ?_ hI1
+      intro p
+      simp only [List.nil_append, List.mem_append, List.mem_singleton]
+      constructor
+      · rintro (⟨h1, h2⟩ | ⟨h1, h2⟩)
+        · exact ⟨.inl h1, h2⟩
+        · exact ⟨.inr h1, h2⟩
+      · rintro ⟨h1 | h1, h2⟩
+        · exact .inl ⟨h1, h2⟩
+        · exact .inr ⟨h1, h2⟩
+    obtain ⟨m2, e2, hI2⟩ := cullOuter_inv adj order hns r (opre ++ [s1]) m1 (by rw [ho]; simp) hI1'
+    exact ⟨m2, by simp only [cullOuter, e1, e2], hI2⟩
+
+theorem linksFrom_ne_nil {adj : List Link} {a b : Nat} (h : linksFrom adj a b ≠ []) :
+    ∃ l ∈ adj, l.dpid1 = a ∧ l.dpid2 = b := by
+  obtain ⟨l, hl⟩ := List.exists_mem_of_ne_nil _ h
+  unfold linksFrom at hl
+  rw [List.mem_filter] at hl
+  simp only [Bool.and_eq_true, decide_eq_true_eq] at hl
+  exact ⟨l, hl.1, hl.2.1, hl.2.2⟩
+
+theorem fin_of_nolinks (adj : List Link) (order : List Nat) (a b : Nat) (h : linksFrom adj a b = []) :
+    fin adj order a b = none := by
+  have : goodLink adj a b = none := by unfold goodLink; rw [h]; rfl
+  exact (fin_none order this).1
+
+theorem portToward_isSome_eq (adj : List Link) (order : List Nat) (a b : Nat) :
+    (portToward adj order a b).isSome = (goodLink adj a b).isSome := by
+  unfold portToward
+  split
+  · simp
+  · rw [Option.isSome_map]
+    cases h1 : (goodLink adj a b).isSome <;> cases h2 : (goodLink adj b a).isSome <;> try rfl
+    · exact absurd ((goodLink_isSome adj a b).mpr ((goodLink_isSome adj b a).mp h2).symm) (by simp [h1])
+    · exact absurd ((goodLink_isSome adj b a).mpr ((goodLink_isSome adj a b).mp h1).symm) (by simp [h2])
+
+/-- THE LOOP COMPUTES THE CLOSED FORM: without self-links and with every switch in `order`, the double loop ends normally, leaves
+    `adj[a][b] = portToward a b` for every pair, and keeps the surviving keys in their insertion order. -/
+theorem cull_final (adj : List Link) (order : List Nat) (hns : ∀ l ∈ adj, l.dpid1 ≠ l.dpid2)
+    (hord : ∀ x ∈ switchesOf adj, x ∈ order) :
+    ∃ m, cullOuter adj order order (build adj []) = .ok m ∧ (∀ a b, m.get (a, b) = fin adj order a b) ∧
+      akeys m = (keysOf adj).filter fun k => (goodLink adj k.1 k.2).isSome := by
+  obtain ⟨bk, bg⟩ := build_nil adj
+  have h0 : CInv adj order (fun p => p.1 ∈ ([] : List Nat) ∧ p.2 ∈ order) (build adj []) := by
+    refine { g1 := ?_, g2 := ?_, g3 := ?_, gk := ?_ }
+    · intro a b hl; rw [bg, if_pos hl]
+    · intro a b _ hs; rcases hs with h | ⟨h, _⟩ <;> simp at h
+    · intro a b hl _; rw [bg, if_neg hl]
+    · rw [bk]
+      symm
+      rw [List.filter_eq_self]
+      intro k hk
+      obtain ⟨l, hl, rfl⟩ := (mem_keysOf adj k).mp hk
+      rw [bg]
+      have : linksFrom adj l.dpid1 l.dpid2 ≠ [] := by
+        apply List.ne_nil_of_mem (a := l)
+        unfold linksFrom; rw [List.mem_filter]; exact ⟨hl, by simp⟩
+      rw [if_neg this]; rfl
+  obtain ⟨m, e, hI⟩ := cullOuter_inv adj order hns order [] (build adj []) rfl h0
+  have hget : ∀ a b, m.get (a, b) = fin adj order a b := by
+    intro a b
+    by_cases hl : linksFrom adj a b = []
+    · rw [hI.g1 a b hl, fin_of_nolinks adj order a b hl]
+    · obtain ⟨l, hlm, h1, h2⟩ := linksFrom_ne_nil hl
+      apply hI.g2 a b hl
+      exact .inl ⟨hord a ((mem_switchesOf a adj).mpr ⟨l, hlm, .inl h1.symm⟩),
+                  hord b ((mem_switchesOf b adj).mpr ⟨l, hlm, .inr h2.symm⟩)⟩
+  refine ⟨m, e, hget, ?_⟩
+  rw [hI.gk]
+  apply List.filter_congr
+  intro k _
+  obtain ⟨a, b⟩ := k
+  rw [hget a b]
+  unfold fin
+  rw [Option.isSome_map, portToward_isSome_eq]
+
+theorem nbrsM_eq (adj : List Link) (m : AMap)
+    (hk : akeys m = (keysOf adj).filter fun k => (goodLink adj k.1 k.2).isSome) : nbrsM m = nbrs adj := by
+  funext v
+  have e1 : nbrsM m v = ((akeys m).filter fun k => decide (k.1 = v)).map (·.2) := by
+    unfold nbrsM akeys
+    rw [List.filter_map, List.map_map]
+    rfl
+  rw [e1, hk, List.filter_filter]
+  rfl
+
+theorem withPortsM_eq (adj : List Link) (order : List Nat) (m : AMap) (hget : ∀ a b, m.get (a, b) = fin adj order a b) :
+    ∀ (es : List (Nat × Nat)), withPortsM m es = withPorts adj order es
+  | [] => rfl
+  | (v, w) :: r => by
+    unfold withPortsM withPorts
+    rw [hget v w, hget w v, withPortsM_eq adj order m hget r]
+    unfold fin
+    cases portToward adj order v w <;> cases portToward adj order w v <;> rfl
+
+/-! ### a link from a switch to itself: the `assert` -/
+
+def SelfKept (adj : List Link) (m : AMap) : Prop :=
+  ∀ s, linksFrom adj s s ≠ [] → m.get (s, s) = some (.links (linksFrom adj s s))
+
+theorem cullBody_self (adj : List Link) (s1 s2 : Nat) (m : AMap) (hJ : SelfKept adj m) :
+    (cullBody adj s1 s2 m = .error "AssertionError") ∨
+    (∃ m', cullBody adj s1 s2 m = .ok m' ∧ SelfKept adj m' ∧ ¬ (s1 = s2 ∧ linksFrom adj s1 s1 ≠ [])) := by
+  unfold cullBody
+  cases hg : m.get (s1, s2) with
+  | none =>
+    refine .inr ⟨m, rfl, hJ, ?_⟩
+    rintro ⟨rfl, hl⟩
+    rw [hJ s1 hl] at hg; cases hg
+  | some e =>
+    cases e with
+    | port p =>
+      refine .inr ⟨m, rfl, hJ, ?_⟩
+      rintro ⟨rfl, hl⟩
+      rw [hJ s1 hl] at hg; cases hg
+    | links ls =>
+      by_cases hne : s1 = s2
+      · left; simp [hne]
+      · right
+        dsimp only
+        rw [if_neg hne]
+        have k1 : ∀ s, ((s1, s2) : Nat × Nat) ≠ (s, s) := fun s c => hne ((Prod.mk.inj c).1.trans (Prod.mk.inj c).2.symm)
+        have k2 : ∀ s, ((s2, s1) : Nat × Nat) ≠ (s, s) := fun s c => hne ((Prod.mk.inj c).2.trans (Prod.mk.inj c).1.symm)
+        cases ls.find? (fun l => decide (l.flip ∈ adj)) with
+        | some l =>
+          refine ⟨_, rfl, ?_, fun c => hne c.1⟩
+          intro s hl
+          rw [AMap.get_set, AMap.get_set, if_neg (k2 s), if_neg (k1 s)]
+          exact hJ s hl
+        | none =>
+          refine ⟨_, rfl, ?_, fun c => hne c.1⟩
+          intro s hl
+          split
+          · rw [AMap.get_erase, AMap.get_erase, if_neg (fun c => k2 s c.symm), if_neg (fun c => k1 s c.symm)]
+            exact hJ s hl
+          · rw [AMap.get_erase, if_neg (fun c => k1 s c.symm)]
+            exact hJ s hl
+
+theorem cullInner_self (adj : List Link) (s1 : Nat) : ∀ (rest : List Nat) (m : AMap), SelfKept adj m →
+    (cullInner adj s1 rest m = .error "AssertionError") ∨
+    (∃ m', cullInner adj s1 rest m = .ok m' ∧ SelfKept adj m' ∧ ¬ (s1 ∈ rest ∧ linksFrom adj s1 s1 ≠ []))
+  | [], m, hJ => .inr ⟨m, rfl, hJ, by simp⟩
+  | s2 :: r, m, hJ => by
+    rcases cullBody_self adj s1 s2 m hJ with e | ⟨m1, e1, hJ1, hn1⟩
+    · left; simp only [cullInner, e]
+    · rcases cullInner_self adj s1 r m1 hJ1 with e | ⟨m2, e2, hJ2, hn2⟩
+      · left; simp only [cullInner, e1, e]
+      · right
+        refine ⟨m2, by simp only [cullInner, e1, e2], hJ2, ?_⟩
+        rintro ⟨hm, hl⟩
+        rcases List.mem_cons.mp hm with c | c
+        · exact hn1 ⟨c, hl⟩
+        · exact hn2 ⟨c, hl⟩
+
+theorem cullOuter_self (adj : List Link) (order : List Nat) : ∀ (rest : List Nat) (m : AMap), SelfKept adj m →
+    (cullOuter adj order rest m = .error "AssertionError") ∨
+    (∃ m', cullOuter adj order rest m = .ok m' ∧ ∀ s ∈ rest, ¬ (s ∈ order ∧ linksFrom adj s s ≠ []))
+  | [], m, _ => .inr ⟨m, rfl, by simp⟩
+  | s1 :: r, m, hJ => by
+    rcases cullInner_self adj s1 order m hJ with e | ⟨m1, e1, hJ1, hn1⟩
+    · left; simp only [cullOuter, e]
+    · rcases cullOuter_self adj order r m1 hJ1 with e | ⟨m2, e2, hn2⟩
+      · left; simp only [cullOuter, e1, e]
+      · right
+        refine ⟨m2, by simp only [cullOuter, e1, e2], ?_⟩
+        intro s hs
+        rcases List.mem_cons.mp hs with c | c
+        · rw [c]; exact hn1
+        · exact hn2 s c
+
+theorem cull_selflink (adj : List Link) (order : List Nat) (hord : ∀ x ∈ switchesOf adj, x ∈ order)
+    (hs : hasSelfLink adj = true) : cullOuter adj order order (build adj []) = .error "AssertionError" := by
+  unfold hasSelfLink at hs
+  rw [List.any_eq_true] at hs
+  obtain ⟨l, hl, he⟩ := hs
+  simp only [decide_eq_true_eq] at he
+  have hlf : linksFrom adj l.dpid1 l.dpid1 ≠ [] := by
+    apply List.ne_nil_of_mem (a := l)
+    unfold linksFrom; rw [List.mem_filter]; exact ⟨hl, by simp [he.symm]⟩
+  have hso : l.dpid1 ∈ order := hord _ ((mem_switchesOf _ adj).mpr ⟨l, hl, .inl rfl⟩)
+  have hJ : SelfKept adj (build adj []) := by
+    intro s hsl
+    rw [(build_nil adj).2, if_neg hsl]
+  rcases cullOuter_self adj order order (build adj []) hJ with e | ⟨m, _, hn⟩
+  · exact e
+  · exact absurd ⟨hso, hlf⟩ (hn _ hso)
+
+/-- `_calc_spanning_tree` with the culling loop as written equals the closed form, for every adjacency — with or without self-links —
+    and every iteration order that contains the switches. -/
+theorem calcTreeL_eq (adj : List Link) (order : List Nat) (hord : ∀ x ∈ switchesOf adj, x ∈ order) :
+    calcTreeL adj order = calcTree adj order := by
+  by_cases hs : hasSelfLink adj = true
+  · unfold calcTreeL calcTree calcEdges
+    rw [cull_selflink adj order hord hs]
+    simp [hs]
+  · have hns : ∀ l ∈ adj, l.dpid1 ≠ l.dpid2 := by
+      intro l hl c
+      apply hs
+      unfold hasSelfLink; rw [List.any_eq_true]; exact ⟨l, hl, by simpa using c⟩
+    obtain ⟨m, e, hget, hk⟩ := cull_final adj order hns hord
+    unfold calcTreeL calcTree calcEdges
+    rw [e]
+    simp only [hasSelfLink_false adj hns, Bool.false_eq_true, if_false, nbrsM_eq adj m hk]
+    split
+    · exact withPortsM_eq adj order m hget _
+    · rfl
+
+/-- `_calc_spanning_tree` raises (the `assert` of :73) exactly when some switch has two of its own ports cabled together -/
+theorem calcTreeL_raises_iff (adj : List Link) (order : List Nat) (hord : ∀ x ∈ switchesOf adj, x ∈ order) :
+    (∃ e, calcTreeL adj order = .error e) ↔ ∃ l ∈ adj, l.dpid1 = l.dpid2 := by
+  rw [calcTreeL_eq adj order hord]
+  constructor
+  · rintro ⟨e, he⟩
+    by_cases hs : ∃ l ∈ adj, l.dpid1 = l.dpid2
+    · exact hs
+    · have hns : ∀ l ∈ adj, l.dpid1 ≠ l.dpid2 := fun l hl c => hs ⟨l, hl, c⟩
+      obtain ⟨es, hes, _, hbi, _⟩ := calcEdges_correct adj hns
+      obtain ⟨t, ht, _, _⟩ := withPorts_ok adj order es hbi
+      have : calcTree adj order = .ok t := by unfold calcTree; rw [hes]; exact ht
+      rw [this] at he; cases he
+  · rintro ⟨l, hl, he⟩
+    refine ⟨"AssertionError", ?_⟩
+    have : hasSelfLink adj = true := by
+      unfold hasSelfLink; rw [List.any_eq_true]; exact ⟨l, hl, by simpa using he⟩
+    unfold calcTree calcEdges
+    simp [this]
+
 end Pox.STree
